@@ -312,3 +312,36 @@ where
         KeyedStream(self)
     }
 }
+
+/// The operator chain of a stream's last, still open block (see `Stream::verif_into_chain`).
+#[cfg(feature = "verif")]
+pub struct VerifChain<Op> {
+    pub chain: Op,
+    pub block_id: BlockId,
+    /// The blocks feeding this one, in connection order.
+    pub prev_blocks: Vec<BlockId>,
+    pub batch_mode: BatchMode,
+}
+
+#[cfg(feature = "verif")]
+impl<Op: Operator> Stream<Op> {
+    /// Hand out the operator chain of the current block instead of scheduling it, so that a
+    /// single replica of it can be driven directly (`verif::testkit::Testbed`).
+    pub fn verif_into_chain(self) -> VerifChain<Op> {
+        let prev_blocks = self
+            .ctx
+            .lock()
+            .scheduler_mut()
+            .prev_blocks(self.block.id)
+            .unwrap_or_default()
+            .into_iter()
+            .map(|(b, _)| b)
+            .collect();
+        VerifChain {
+            block_id: self.block.id,
+            prev_blocks,
+            batch_mode: self.block.batch_mode,
+            chain: self.block.operators,
+        }
+    }
+}
